@@ -11,6 +11,7 @@
 -/
 
 import SparseV.Lemmas.Interleave
+import SparseV.Lemmas.SharedReads
 
 namespace SparseV.C13
 
@@ -178,6 +179,189 @@ theorem coarse_run_is_fine_run (mode : Mode) (compute : Key → V) (coarse : Lis
 
 /-- the witness at the harness's granularity: nine quanta, standing for the twelve fine steps -/
 example : (coarseRun .live (fun k : Key => k) [0, 0, 0, 1, 1, 1, 1, 1, 0] (cinit cexDq cexProgs)).2 = cexSched := by
+  decide
+
+/-! ### (c) the dictionary of a shared DOK array -/
+
+open SparseV.Shared
+
+/-- **reads_only_no_new_errors.** Calls whose statements only READ the shared dictionary (statement
+loops and comprehensions over the live dictionary, one-call reads such as `list(d.items())`, `len`,
+`k in d`): for ALL schedules, any number of threads and calls per thread and any dictionary (dead
+slots included) — no call raises (`dictionary changed size during iteration` is unreachable), the
+dictionary is left exactly as it was, and every call has seen what it sees when it runs alone. -/
+theorem reads_only_no_new_errors (d0 : Dict) (progs : List (List Op))
+    (hp : ∀ p ∈ progs, ∀ op ∈ p, Op.isRead op = true) (sched : List Nat) :
+    derrorsOf (runSched dstep sched (dinit d0 progs)) = []
+    ∧ (runSched dstep sched (dinit d0 progs)).dict = d0
+    ∧ ∀ th ∈ (runSched dstep sched (dinit d0 progs)).threads, ∀ r ∈ th.rets, r.2 = .ok (seqSeen d0 r.1) := by
+  have h := run_inv dstep (DInv d0) (dstep_inv d0) sched _ (dinit_inv d0 progs hp)
+  refine ⟨derrorsOf_nil (fun th hth r hr => ⟨_, (h.2 th hth).2.1 r hr⟩), h.1, fun th hth => (h.2 th hth).2.1⟩
+
+/-- non-vacuity: three threads — `todense` (statement loop), a comprehension, `asformat` (one-call read) —
+interleaved step by step on a dictionary with a dead slot; all finish, each saw both live entries. -/
+example :
+    let s := runSched dstep [0, 1, 2, 0, 1, 2, 0, 1, 2, 0, 1, 2, 0, 1, 0, 1, 0, 0, 0, 0]
+      (dinit [some (0, 5), none, some (2, 0)] [[[.iterItems]], [[.scanItems]], [[.snapshot]]])
+    dallDone s = true ∧ s.threads.map (fun th => th.rets.map (·.2)) = [[.ok [(0, 5), (2, 0)]], [.ok [(0, 5), (2, 0)]], [.ok [(0, 5), (2, 0)]]] := by
+  decide
+
+/-- **dok_read_methods_read_only.** Over the table GENERATED from the current source of class DOK
+(every mention of `self.data`, classified): every method that is not one of the documented mutators
+(`__init__`, `__setitem__`, `_fancy_setitem`, `_setitem`) is understood and consists of reads only.
+A method that starts to write `self.data`, to alias it or to use it in a way the extractor does not
+understand makes this theorem fail. -/
+theorem dok_read_methods_read_only :
+    (match dokReadProtos with
+     | some ps => ps.all Op.isRead
+     | none => false) = true := by
+  decide
+
+/-- **dok_reads_no_new_errors.** Hence, for the DOK class as it is in the source: no interleaving of
+calls of its read-only methods (todense, asformat — and through it every conversion, `__getitem__`,
+reshape, element-wise and reduction call —, nnz, _fancy_getitem) on a shared array raises, changes
+the dictionary, or shows a call anything but the whole dictionary. -/
+theorem dok_reads_no_new_errors (ps : List Op) (hps : dokReadProtos = some ps) (d0 : Dict) (progs : List (List Op))
+    (hp : ∀ p ∈ progs, ∀ op ∈ p, op ∈ ps) (sched : List Nat) :
+    derrorsOf (runSched dstep sched (dinit d0 progs)) = []
+    ∧ (runSched dstep sched (dinit d0 progs)).dict = d0
+    ∧ ∀ th ∈ (runSched dstep sched (dinit d0 progs)).threads, ∀ r ∈ th.rets, r.2 = .ok (seqSeen d0 r.1) := by
+  have h := dok_read_methods_read_only
+  rw [hps] at h
+  simp only [List.all_eq_true] at h
+  exact reads_only_no_new_errors d0 progs (fun p hpm op hop => h op (hp p hpm op hop)) sched
+
+/-- non-vacuity: the table yields protocols, `todense` is a live loop and `asformat` a one-call read -/
+example : dokReadProtos.isSome = true ∧ methodProto "todense" = some [.iterItems] ∧ methodProto "asformat" = some [.snapshot] := by
+  decide
+
+/-- **The full statement** for calls drawn from a given set of methods: under no schedule does a call
+fail, and the dictionary is left as it was. -/
+def Statement_dict_reads_safe (allowed : List Op) : Prop :=
+  ∀ (d0 : Dict) (progs : List (List Op)), (∀ p ∈ progs, ∀ op ∈ p, op ∈ allowed) → ∀ sched : List Nat,
+    derrorsOf (runSched dstep sched (dinit d0 progs)) = [] ∧ (runSched dstep sched (dinit d0 progs)).dict = d0
+
+/-- **pruning_read_counterexample.** If a "read" prunes — `asformat` first deletes the entries equal
+to the fill value, `for c in [c for c, d in self.data.items() if d == fill]: del self.data[c]` — the
+statement is false: a concrete 2-thread schedule in which `todense`, which succeeds alone, ends with
+RuntimeError (dictionary changed size during iteration). -/
+theorem pruning_read_counterexample : ¬ Statement_dict_reads_safe [[.iterItems], [.pruneFill, .snapshot]] := by
+  intro h
+  have := (h pruneDict pruneProgs (by decide) pruneSched).1
+  revert this
+  decide
+
+/-- and such a read changes its operand even when it runs alone: no second thread is needed to see it -/
+theorem pruning_read_changes_operand :
+    (runSched dstep (List.replicate 11 0) (dinit pruneDict [[[.pruneFill, .snapshot]]])).dict ≠ pruneDict
+    ∧ derrorsOf (runSched dstep (List.replicate 11 0) (dinit pruneDict [[[.pruneFill, .snapshot]]])) = []
+    ∧ dallDone (runSched dstep (List.replicate 11 0) (dinit pruneDict [[[.pruneFill, .snapshot]]])) = true := by
+  decide
+
+/-- the extractor's rows for the pruning variant are mapped to that protocol, and rejected as a read -/
+example :
+    let rows := [("asformat", "iter-comp", ""), ("asformat", "write:del", ""), ("asformat", "snapshot", ""), ("todense", "iter-loop", "")]
+    methodProtoIn rows "asformat" = some [.pruneFill, .snapshot]
+    ∧ ((readMethodsIn rows).mapM (methodProtoIn rows)).map (fun ps => ps.all Op.isRead) = some false := by
+  decide
+
+/-- the harness's line-granularity schedules of the dictionary rig are ordinary schedules -/
+theorem dcoarse_run_is_fine_run (fuel : Nat) (coarse : List Nat) :
+    ∀ s : DState, (dcoarseRun fuel coarse s).1 = runSched dstep (dcoarseRun fuel coarse s).2 s := by
+  have hq : ∀ (fuel : Nat) (t : Nat) (s : DState), (dquantum fuel t s).1 = runSched dstep (dquantum fuel t s).2 s := by
+    intro fuel
+    induction fuel with
+    | zero => intro t s; rfl
+    | succ n ih =>
+      intro t s
+      simp only [dquantum]
+      split
+      · simp only [runSched, List.foldl_cons]; exact ih t (dstep t s)
+      · rfl
+  induction coarse with
+  | nil => intro s; rfl
+  | cons t ts ih =>
+    intro s
+    simp only [dcoarseRun]
+    rw [runSched_append, ← hq, ← ih]
+
+/-! ### (d) the process-global warning filters -/
+
+/-- is the call one of the library's: a `catch_warnings` block from `blocks`, or a call that emits a
+warning of the catalogue -/
+def WOp.fromLib (blocks : List (List Filter)) (cat : List Warn) : WOp → Bool
+  | .block fs => blocks.contains fs
+  | .warn w => cat.contains w
+
+/-- **The full statement** for a library with the given blocks and warnings: started from a filter
+list without harmful entries (Python's default has none), under no schedule does a call that merely
+warns when it runs alone end with an error. -/
+def Statement_filters_no_new_errors (blocks : List (List Filter)) (cat : List Warn) : Prop :=
+  ∀ (fs0 : List Filter), benign cat fs0 = true → ∀ (progs : List (List WOp)),
+    (∀ p ∈ progs, ∀ op ∈ p, WOp.fromLib blocks cat op = true) → ∀ sched : List Nat,
+      werrorsOf (runSched wstep sched (winit fs0 progs)) = []
+
+/-- **filters_no_new_errors.** If no block installs a harmful filter — one whose action is "error" and
+which matches a catalogued warning or has no message — then for ALL schedules, any number of threads
+and calls, nested or not: no warning is ever turned into an error.  (The installed list need NOT be
+restored: see the example below — a warning can be lost, no result changes.) -/
+theorem filters_no_new_errors (blocks : List (List Filter)) (cat : List Warn)
+    (hb : blocks.all (benign cat) = true) : Statement_filters_no_new_errors blocks cat := by
+  intro fs0 hfs progs hp sched
+  have hops : ∀ p ∈ progs, ∀ op ∈ p, WOpOK cat op := by
+    intro p hpm op hop
+    have := hp p hpm op hop
+    cases op with
+    | block fs =>
+      simp only [WOp.fromLib, List.contains_iff_mem] at this
+      exact benign_iff.mp (List.all_eq_true.mp hb fs this)
+    | warn w =>
+      simp only [WOp.fromLib, List.contains_iff_mem] at this
+      exact this
+  have h := run_inv wstep (WInv cat) (wstep_inv cat) sched _ (winit_inv cat fs0 (benign_iff.mp hfs) progs hops)
+  exact werrorsOf_nil (fun th hth => (h.2 th hth).2.1)
+
+/-- **library_blocks_benign.** Over the tables GENERATED from the current source: no
+`with warnings.catch_warnings()` block of the package installs a harmful filter (the catalogue: NumPy's
+floating-point warnings and every `warnings.warn` of the package), and no function edits process-global
+state outside such a block. -/
+theorem library_blocks_benign : libraryBlocks.all (benign libraryCatalogue) = true ∧ Gen.globalWrites = [] := by
+  decide
+
+/-- **library_filters_no_new_errors.** Hence, for the package as it is in the source: whatever the
+interleaving of `can_store` (reshape, concatenate, conversions to and from GCXS, GCXS indexing),
+`density`, `html_table` and calls that warn (1/s, log(s), g/g, matmul with NaN, nan-reductions), no
+warning becomes an error. -/
+theorem library_filters_no_new_errors : Statement_filters_no_new_errors libraryBlocks libraryCatalogue :=
+  filters_no_new_errors _ _ library_blocks_benign.1
+
+/-- non-vacuity, and what is NOT claimed: `can_store`'s two filters ("ignore" everything; "error" for a
+DeprecationWarning starting with "out-of-bound", which nothing emits) are in the table; two threads
+leaving their blocks in non-nested order leave both filters installed for good — the list is not
+restored — and a later division by zero is silently ignored instead of shown: a lost warning, not an error. -/
+example :
+    let cs : List Filter := [⟨.ignore, [], "Warning"⟩, ⟨.error, "out-of-bound".toList, "DeprecationWarning"⟩]
+    let s := runSched wstep [0, 0, 0, 0, 1, 1, 0, 0, 1, 1, 1, 1, 2, 2] (winit [] [[.block cs], [.block cs], [.warn divWarn]])
+    libraryBlocks.contains cs = true ∧ libraryCatalogue.contains ⟨"RuntimeWarning", "divide by zero encountered".toList⟩ = true
+    ∧ wallDone s = true ∧ s.filters ≠ [] ∧ werrorsOf s = [] := by
+  decide
+
+/-- **error_filter_transient_counterexample.** A block that installs a catch-all "error" filter
+(`warnings.simplefilter("error")`): while one thread is inside, a call of another thread that merely
+warns when run alone raises. -/
+theorem error_filter_transient_counterexample : ¬ Statement_filters_no_new_errors [[errAll]] [divWarn] := by
+  intro h
+  have := h [] (by decide) transientProgs (by decide) transientSched
+  revert this
+  decide
+
+/-- **error_filter_lasting_counterexample.** Two such blocks left in non-nested order re-install a list
+that still holds the "error" filter: after BOTH threads have left their blocks it is installed for
+good, and a warning emitted by a third call long afterwards raises. -/
+theorem error_filter_lasting_counterexample :
+    wallDone (runSched wstep lastingSched (winit [] lastingProgs)) = true
+    ∧ (runSched wstep lastingSched (winit [] lastingProgs)).filters = [errAll]
+    ∧ werrorsOf (runSched wstep lastingSched (winit [] lastingProgs)) = [(.warn divWarn, .runtime)] := by
   decide
 
 end SparseV.C13
